@@ -538,7 +538,12 @@ func PathAvoiding(g *cfg.CFG, gate func(ast.Node) bool, target func(ast.Node) bo
 
 // PathAvoidingFrom is PathAvoiding but starting after the cfg node `from` (the first node for which start returns true).
 func PathAvoidingFrom(g *cfg.CFG, start func(ast.Node) bool, gate func(ast.Node) bool, target func(ast.Node) bool) []ast.Node {
-	var hits []ast.Node
+	hits, _ := PathAvoidingFromS(g, start, gate, target)
+	return hits
+}
+
+// PathAvoidingFromS additionally reports whether any start node was found (a rule whose start never matches passes vacuously).
+func PathAvoidingFromS(g *cfg.CFG, start func(ast.Node) bool, gate func(ast.Node) bool, target func(ast.Node) bool) (hits []ast.Node, started bool) {
 	seen := map[*cfg.Block]bool{}
 	var visit func(b *cfg.Block, from int)
 	visit = func(b *cfg.Block, from int) {
@@ -566,11 +571,12 @@ func PathAvoidingFrom(g *cfg.CFG, start func(ast.Node) bool, gate func(ast.Node)
 		}
 		for i, n := range b.Nodes {
 			if start(n) {
+				started = true
 				visit(b, i+1)
 			}
 		}
 	}
-	return hits
+	return hits, started
 }
 
 // ExitsWithout returns the function exits (return statements, or the implicit end) reachable without passing a gate node.
